@@ -49,8 +49,15 @@ func cmdRun(args []string) {
 	baseFlags(fs, &cfg)
 	pkgName := fs.String("pkg", "yqlib", "yqlib|cmd")
 	params := fs.String("params", "", "k=v,k=v harness parameters")
+	prop := fs.String("prop", "", "take source rewrites from this property's checks.json entry")
 	fs.Parse(args)
 	cfg.Params = parseParams(*params)
+	if *prop != "" {
+		var specs map[string]*PropertySpec
+		if err := loadJSON("/verif/checks.json", &specs); err == nil && specs[*prop] != nil {
+			cfg.Rewrites = specs[*prop].Rewrites
+		}
+	}
 	e, _, err := loadEngine(cfg)
 	if err != nil {
 		fmt.Fprintln(os.Stderr, "load:", err)
